@@ -207,6 +207,15 @@ pub fn format_family(max_n: usize, stride: usize) -> Vec<(Facts, String)> {
                     };
                     out.push((g, format!("{} / {} / {}", d.describe(), what, pw)));
                 }
+                // the same numeric record id in all three kinds
+                {
+                    let mut g = f.clone();
+                    for (kind, name) in [(Kind::Omim, "Seven (omim)"), (Kind::Orpha, "Seven (orpha)"), (Kind::Gene, "SEVEN")] {
+                        g.anns.push(Facts::ann(kind, 7, name, Some(ids[last])));
+                        g.anns.push(Facts::ann(kind, 7, name, Some(ids[0])));
+                    }
+                    out.push((g, format!("{} / {} / shared record id 7 in all kinds", d.describe(), what)));
+                }
             }
         }
     }
